@@ -240,6 +240,12 @@ def event_lines(case):
     """script calls for the history of run-time modifications (modelled events and raw script lines)"""
     L = []
     for e in case.get("events", []):
+        if e["type"] in ("biasoff", "biason"):
+            L.append("scriptu cv|bias|b%d|set|apply_force|%d" % (e["bias"], 1 if e["type"] == "biason" else 0))
+            continue
+        if e["type"] == "delbias":
+            L.append("scriptu cv|bias|b%d|delete" % e["bias"])
+            continue
         v = case["vars"][e["var"]]
         pos = cxx_order(v)
         if e["type"] == "mod":
@@ -259,6 +265,17 @@ def event_lines(case):
                 fl[pos[j]] = 1 if f else 0
             L.append("scriptu cv|colvar|v%d|cvcflags|%s" % (e["var"], " ".join(str(f) for f in fl)))
     return L + list(case.get("script", []))
+
+
+def bias_active(case):
+    """which biases contribute energy and forces at the measured steps: not deleted, apply_force on"""
+    act = [True] * len(case.get("biases", []))
+    for e in case.get("events", []):
+        if e["type"] in ("biasoff", "delbias"):
+            act[e["bias"]] = False
+        elif e["type"] == "biason":
+            act[e["bias"]] = True
+    return act
 
 
 def n_event_steps(case):
@@ -456,13 +473,16 @@ def model_line(case, res=None):
             for g in c["groups"]:
                 t += group_tokens(g)
             t.append(hx(v["period"] if v.get("period") else PERIODIC.get(k, 0.0)))      # the component's own period
-    t.append(str(len(case["biases"])))
+    act = bias_active(case)
+    t.append(str(sum(1 for a_ in act if a_)))
     pre = []
     pre_all = []
     if res is not None:
         pre = pre_values(case, res, False)
         pre_all = pre_values(case, res, True)
     for jb, b in enumerate(case["biases"]):
+        if not act[jb]:
+            continue
         if b["type"] == "meta":
             # one hill, deposited at the last pre-step (step 1000): centre = the variable values printed there; the hill keeps
             # the weight and the widths it was deposited with (those of the configuration of the FIRST instance), also after
@@ -530,7 +550,7 @@ def model_line(case, res=None):
             for (i, lo, up) in b["terms"]:
                 t += [str(vmap[i][0]), hx(lo), hx(up)]
     # history of run-time modifications (component indices in configuration order, as in the model's lists)
-    evs = case.get("events", [])
+    evs = [e for e in case.get("events", []) if e["type"] in ("mod", "flags")]
     t.append(str(len(evs)))
     for e in evs:
         if e["type"] == "mod":
@@ -1011,6 +1031,21 @@ def gen_case(r, kinds, opts):
         add_restart(r, case)
     if opts.get("events") and r.random() < opts["events"] and not case.get("restart"):
         add_history(r, case, n_atoms, opts)
+    if opts.get("events") and r.random() < 0.5 * opts["events"] and not case.get("restart") and not case.get("presteps") \
+       and not any(b["type"] in ("meta", "abmd") for b in case["biases"]):
+        # two holders of the same kind of thing, one of them switched off for a few steps / deleted in the middle of the session
+        nbs = len(case["biases"])
+        evs = case.setdefault("events", [])
+        j = r.randrange(nbs)
+        m = r.random()
+        if m < 0.4:
+            evs += [{"type": "biasoff", "bias": j}, {"type": "biason", "bias": j}]
+        elif m < 0.7 and nbs >= 2:
+            evs += [{"type": "biasoff", "bias": j}]
+        elif nbs >= 2:
+            evs += [{"type": "delbias", "bias": j}]
+        else:
+            evs += [{"type": "biasoff", "bias": j}, {"type": "biason", "bias": j}]
     if opts.get("moving") and r.random() < opts["moving"] and not case.get("presteps") and not case.get("restart"):
         # moving restraints, evaluated at a fixed step number S <= targetNumSteps (dyadic lambda = S/N)
         N = r.choice([1024, 512, 1000, 6, 12, 7, 5, 3])          # also targetNumSteps that are not powers of two
@@ -1118,6 +1153,8 @@ def effective_params(case):
     """live (coeff, exp, active) of every component after the history (python mirror, for labels only)"""
     out = [[[c.get("coeff", 1.0), c.get("exp", 1), True] for c in v["cvcs"]] for v in case["vars"]]
     for e in case.get("events", []):
+        if e["type"] not in ("mod", "flags"):
+            continue
         if e["type"] == "mod":
             t = out[e["var"]][e["comp"]]
             if e.get("coeff") is not None:
@@ -1137,7 +1174,8 @@ def history_label(case):
     lab = set()
     eff = effective_params(case)
     for e in case["events"]:
-        lab.add("cvcflags" if e["type"] == "flags" else "modifycvcs")
+        lab.add({"flags": "cvcflags", "mod": "modifycvcs", "biasoff": "bias-apply_force-off", "biason": "bias-apply_force-on-again",
+                 "delbias": "bias-deleted"}[e["type"]])
     for v, ps in zip(case["vars"], eff):
         lin0 = all(c.get("exp", 1) == 1 for c in v["cvcs"])
         hom0 = lin0 and all(abs(abs(c.get("coeff", 1.0)) - 1.0) < 1e-10 for c in v["cvcs"])
@@ -1325,7 +1363,10 @@ def fd_check(case, res):
 
 def walls_ambiguous(case, base, res=None):
     """a variable within 0.05 of a wall position (or of the ABMD reference): the energy has a kink there"""
+    act = bias_active(case)
     for j, b in enumerate(case.get("biases", [])):
+        if not act[j]:
+            continue
         if b["type"] == "meta":
             # the hill is set to zero beyond exponent 23 (a jump of W*1e-5 in the energy): decided only well inside
             e = base.get("bias", {}).get("b%d" % j)
